@@ -149,7 +149,7 @@ pub const MUTATIONS_C03: &[&str] = &[
     "tx_root", "proposals_hash", "extra_hash", "witness_root_only",
     "two_cellbases", "cellbase_not_first", "cellbase_two_outputs", "cellbase_output_data", "cellbase_type_script",
     "cellbase_input_since", "cellbase_witness_garbage", "cellbase_no_witness", "dup_tx",
-    "uncle_too_many", "uncle_other_epoch", "uncle_pow_invalid",
+    "uncle_too_many", "uncle_other_epoch", "uncle_pow_invalid", "commit_bad_tx",
 ];
 
 /// rules that only the header stage checks: generated only when deliveries pass through it
@@ -408,7 +408,7 @@ pub fn generate(seed: u64, prop: &str) -> Scenario {
             cfg.epoch_duration_target = cfg.genesis_epoch_len * 8;
         }
     }
-    let n = if prop == "C08" { r.urange(6, 24) } else if prop == "C10" { r.urange(30, 90) } else { r.urange(8, 60) };
+    let n = if prop == "C08" { r.urange(6, 24) } else if prop == "C10" { r.urange(30, 90) } else if prop == "C04" { r.urange(25, 70) } else { r.urange(8, 60) };
     let rich = prop != "C01" || r.chance(1, 2);
     let invalid = match prop {
         "C01" | "C03" => r.urange(0, 3),
@@ -420,7 +420,26 @@ pub fn generate(seed: u64, prop: &str) -> Scenario {
     // C03: the whole pipeline "header check, then chain service" in three runs out of five; real
     // proof of work (nonces mined by the model) in half of the runs
     let mut header_stage = false;
-    let mut tree = if prop == "C03" {
+    let mut tree = if prop == "C04" {
+        // chain-mode part of C04: transactions that break one rule of their own (capacity, occupied
+        // size, NervosDAO maximum withdraw), or whose time lock / proposal is missing, committed by
+        // blocks anywhere in a tree with reorganisations
+        cfg.bad_twins = true;
+        let muts = ["commit_bad_tx", "commit_bad_tx", "commit_bad_tx", "commit_immature_since", "commit_unproposed"];
+        let mut r4 = Rng::new(seed ^ 0xC04_BAD);
+        let inv = r4.urange(1, 3);
+        let mut t = gen_tree_with(&mut r, n, true, inv, &muts);
+        for x in t.iter_mut() {
+            x.recipe.new_txs = x.recipe.new_txs.max(1);
+            x.recipe.propose = x.recipe.propose.max(2);
+            if x.recipe.mutation.is_none() && r4.chance(1, 2) {
+                // candidates linger: the rule-breaking twin may still find its inputs live
+                x.recipe.commit = x.recipe.commit.min(1);
+            }
+        }
+        t
+    } else if prop == "C03" {
+        cfg.bad_twins = true;
         let mut r3 = Rng::new(seed ^ 0xC03_4EAD);
         header_stage = r3.chance(3, 5) || pow_only;
         if r3.chance(1, 2) || pow_only {
@@ -464,6 +483,16 @@ pub fn generate(seed: u64, prop: &str) -> Scenario {
     } else {
         gen_tree(&mut r, n, rich, invalid)
     };
+    if prop == "C06" {
+        // a third of the broken blocks commit a transaction that overdraws (capacity / NervosDAO maximum withdraw)
+        cfg.bad_twins = true;
+        let mut r6 = Rng::new(seed ^ 0xC06_BAD);
+        for t in tree.iter_mut() {
+            if t.recipe.mutation.is_some() && r6.chance(1, 3) {
+                t.recipe.mutation = Some("commit_bad_tx".into());
+            }
+        }
+    }
     if prop == "C14" {
         // most of the broken blocks carry the same transaction content with a failing witness
         for t in tree.iter_mut() {
